@@ -1675,8 +1675,11 @@ class NiftiWrapper(object):
             result_shape.append(1)
         result_shape[dim] = n_inputs
 
-        result_dtype = max(input_wrp.nii_img.get_data_dtype()
-                           for input_wrp in seq)
+        #The result must be able to hold the (scaled) values of every input
+        result_dtype = np.result_type(
+            *[np.asanyarray(input_wrp.nii_img.dataobj).dtype
+              for input_wrp in seq]
+        )
         result_data = np.empty(result_shape, dtype=result_dtype)
 
         #Start with the header info from the first input
